@@ -389,6 +389,66 @@ def content_legs(chk, tier, judge, stats):
     return found
 
 
+def logging_leg(chk, tier, judge, stats):
+    """The logging configuration is part of the world: the REAL logger (logger.init, never replaced) with logmethod = file
+    over a sys.stdout of every kind of charset / error handler, syslog (the real syslog.syslog) and none, against requests
+    whose bytes are not valid UTF-8 or not encodable in the stream's charset, for hits and misses.  Oracle: the common
+    per-reply one; the reply is the one the same request gets under the driver's own record collector; and the record of
+    the request still arrives (same number of records, same [Protocol/Handler] site)."""
+    rng = chk.rng
+    found = False
+    ltree, lreqs = c03gen.logging_world(rng, tier)
+    rj = [{"data": gen.lat(d), "tls": tl} for d, tl, _ in lreqs]
+    setups = c03gen.LOG_SETUPS
+    half = (len(setups) + 1) // 2
+    jobs = [{"op": "world", "tree": ltree, "config": trees.SITE_CONFIG, "requests": rj},
+            {"op": "c03_logging", "tree": ltree, "config": trees.SITE_CONFIG, "setups": setups[:half], "requests": rj},
+            {"op": "c03_logging", "tree": ltree, "config": trees.SITE_CONFIG, "setups": setups[half:], "requests": rj}]
+    res = impl_run_parallel(jobs, chunks=len(jobs))
+    for r in res:
+        if not r["ok"]:
+            raise RuntimeError(r["err"] + "\n" + r.get("tb", ""))
+    base = res[0]["res"]["results"]
+    by_setup = dict(res[1]["res"]["results"], **res[2]["res"]["results"])
+    stats["logging_setups"] = len(setups)
+    stats["logging_requests"] = len(lreqs)
+    per = {}
+    for st in setups:
+        name = st["name"]
+        for (d, tl, meta), b, o in zip(lreqs, base, by_setup[name]):
+            chk.count(("logging", name, d[:120], tl), nontrivial=True)
+            if per.get(name, 0) >= 3:
+                continue
+            ex = {"tree": ltree, "logging": st, "request_meta": meta, "records_latin1": o["records"][:4], "handlers": "default",
+                  "reply_under_the_drivers_collector": b["out"][:300]}
+            recs = o["records"]
+            if o.get("raw") and isinstance(st["stream"], dict) and not any(c03gen.record_site(l) for l in recs):
+                # a logger that writes through the text layer writes in the stream's own charset
+                alt = [l for l in o["raw"].encode("latin-1").decode(st["stream"]["encoding"], "replace").split("\n") if l.strip("\ufeff\r")]
+                if any(c03gen.record_site(l) for l in alt):
+                    recs = alt
+            o2 = dict(o, log=recs if st["logmethod"] != "none" else b["log"])
+            if judge(d, tl, "logging", o2, "default", extra=ex, sub="log-" + name):
+                found = True
+                per[name] = per.get(name, 0) + 1
+                continue
+            why = None
+            if gen.mask_times(o["out"].encode("latin-1")) != gen.mask_times(b["out"].encode("latin-1")) and not b["exc"]:
+                why, tg = "the reply depends on the logging configuration", "log-dependence"
+            elif st["logmethod"] != "none":
+                want = [c03gen.record_site(l) for l in b["log"]]
+                got = [c03gen.record_site(l) for l in recs]
+                if want != got:
+                    why, tg = "the request is answered but its log record is lost or altered: expected sites %r, got %r" % (want, got), "record-lost"
+            if why:
+                found = True
+                per[name] = per.get(name, 0) + 1
+                m = re.search(r"\[(\w+)/", " ".join(b["log"]))
+                chk.violation(dict(ex, what=why, request_latin1=gen.lat(d), tls=tl, response_latin1=o["out"][:400]),
+                              tag="%s:log-%s:%s" % (tg, name, CLS.get(m.group(1) if m else None) or "none"))
+    return found
+
+
 def run(tier):
     chk = Check("C03", tier)
     import time as _time
@@ -700,6 +760,9 @@ def run(tier):
     if content_legs(chk, tier, judge, stats):
         found = True
     lap("attribute selection + hostile mailboxes")
+    if logging_leg(chk, tier, judge, stats):
+        found = True
+    lap("logging configurations")
     # ---- live leg: the real ThreadingTCPServer and GopherRequestHandler on a TCP socket, real (TLS) clients; a handler list
     # with the handlers that hand the connection's descriptor to a child process.  What the client receives is judged by
     # the same validators, and must be what the in-memory transport delivered for the same request ----
